@@ -204,7 +204,7 @@ def analyse(sess, outs, strict_lockstep=False):
                 if kind != "encap_frag":
                     ctxs.pop(reg, None)
                 if kind == "encap_frag" and o.toks[1] == "PduLength" and ctx is not None and ctx[2] <= len(pdu):
-                    F(i, ["C09", "C11"], "encap_frag refused a context inside the PDU")
+                    F(i, ["C09", "C11", "C02"], "encap_frag refused a context inside the PDU (the transfer can never be completed)")
                 if kind == "encap_frag" and o.toks[1] == "SizeBuffer" and ctx is not None and ctx[2] <= len(pdu):
                     rem = len(pdu) - ctx[2]
                     # a buffer of 7 bytes always finishes or progresses; with payload left, 4 bytes carry one
@@ -346,8 +346,9 @@ def analyse(sess, outs, strict_lockstep=False):
                 if nf != op["fid"]:
                     F(i, ["C11"], "context frag id %d, passed %d" % (nf, op["fid"]))
                 if pk.total_len != 2 + wlen + len(pdu):      # over the naturals: a sum beyond 65535 must have been refused
-                    F(i, P6 + ["C02"] + (["C13"] if exts else []), "total length %s, expected %d (protocol type + label as written + PDU)"
-                      % (pk.total_len, 2 + wlen + len(pdu)))
+                    F(i, P6 + ["C02"] + (["C13"] if exts else []) + (["C09"] if 2 + wlen + len(pdu) > 65535 else []),
+                      "total length %s, expected %d (protocol type + label as written + PDU)%s"
+                      % (pk.total_len, 2 + wlen + len(pdu), "; a PDU exceeding the 16-bit total length must be refused" if 2 + wlen + len(pdu) > 65535 else ""))
                 tl = (len(pdu) + 2 + wlen) & 0xFFFF
                 lb = pk.label.data if wl in "63" else b""
                 exp_crc = ref_gse_crc(pdu, op["pt"], tl, lb)
@@ -450,7 +451,7 @@ def analyse(sess, outs, strict_lockstep=False):
             exp = ref_peek(fed)
             got = o.res
             if exp is not None and got != exp:
-                F(i, ["C19"] if op.get("of") is not None else ["C05"], "peek -> %s, independent reading gives %s" % (got, exp))
+                F(i, ["C19"], "peek -> %s, independent reading gives %s" % (got, exp))
             src = info.get(op.get("of"))
             if src and src.get("ok") and src.get("pkt") is not None:
                 pk = src["pkt"]
